@@ -249,7 +249,7 @@ Proof. exact unknown_as_expected. Qed.
 Print Assumptions C09_parser_unknown_nodes.
 
 (* 26. hence every parser function of the current source terminates on every input, at depth <= (|input|+1) * rank_bound *
-       size_bound + 1 (rank_bound, size_bound: Model/ProgressInst.v; 25 and 227 for the tree this was written against),
+       size_bound + 1 (rank_bound, size_bound: Model/ProgressInst.v; about 25 and 230 for the trees seen so far),
        under oracle_ok for the primitive leaves, the unknown nodes and the two assumed loops. *)
 Theorem C09_parser_terminates : forall O, oracle_ok O -> forall f i n,
   (List.length i + 1) * (rank_bound * size_bound) + 1 < n -> exists r, evalp O grammar_cut all_on n (PCall f) i = Some r.
@@ -263,7 +263,8 @@ Theorem C09_parser_consuming_entries : forall O, oracle_ok O -> forall f, In f m
 Proof. exact must_consume_consumes. Qed.
 Print Assumptions C09_parser_consuming_entries.
 
-(* 28. of the 173 nom repetitions of the current source, all but the two allow-listed ones have a dead guard: the parser
+(* 28. of the nom repetitions of the current source (165-173 sites in the trees seen so far), all but the two allow-listed
+       ones have a dead guard: the parser
        behaves identically with those guards removed (so its termination does not rest on them). *)
 Theorem C09_parser_other_guards_dead : forall O, oracle_ok O -> forall n f i,
   evalp O grammar_cut gd_allowed n (PCall f) i = evalp O grammar_cut all_on n (PCall f) i.
